@@ -466,3 +466,77 @@ def modules_from_bodies(bodies, per_module=40):
         ast, lines = layout(m)
         mods.append({"ast": ast, "lines": lines})
     return mods
+
+
+# ---------------------------------------------------------------------------------------
+# frame compositions: nest control constructs around a terminator, with code after every construct
+# ---------------------------------------------------------------------------------------
+def _S():
+    return ('simple', 0)
+
+
+FRAMES = {
+    # name: (function inner_block -> statement, introduces_loop_for_hole)
+    'try_fin_body': (lambda h: ('try', 0, h, [], None, [_S()]), False),
+    'try_fin_fin': (lambda h: ('try', 0, [_S()], [], None, h), False),
+    'try_exc_body': (lambda h: ('try', 0, h, [(0, [_S()])], None, None), False),
+    'try_exc_handler': (lambda h: ('try', 0, [_S()], [(0, h)], None, None), False),
+    'try_exc_else': (lambda h: ('try', 0, [_S()], [(0, [_S()])], h, None), False),
+    'try_exc_fin_body': (lambda h: ('try', 0, h, [(0, [_S()])], None, [_S()]), False),
+    'try_exc_fin_handler': (lambda h: ('try', 0, [_S()], [(0, h)], None, [_S()]), False),
+    'while_body': (lambda h: ('while', 0, h, None), True),
+    'for_body_else_ret': (lambda h: ('for', 0, h, [('return', 0)]), True),
+    'while_body_else_raise': (lambda h: ('while', 0, h, [('raise', 0)]), True),
+    'loop_else_hole': (lambda h: ('while', 0, [_S()], h), None),      # hole in the else clause: belongs to the outer loop
+    'with_body': (lambda h: ('with', 0, h), False),
+    'if_then': (lambda h: ('if', 0, h, [], [_S()]), False),
+    'if_else': (lambda h: ('if', 0, [_S()], [], h), False),
+    'if_elif': (lambda h: ('if', 0, [_S()], [(0, h), (0, [_S()])], None), False),
+    'match_case': (lambda h: ('match', 0, [(0, h), (0, [_S()])]), False),
+}
+
+
+def frame_body(names, term):
+    """Function body: frames nested outermost-first around [simple, term], a simple statement after every frame."""
+    inner = [_S(), (term, 0)] if term != 'none' else [_S()]
+    for nm in reversed(names):
+        f, _ = FRAMES[nm]
+        inner = [f(inner), _S()]
+    return inner
+
+
+def frame_legal(names, term):
+    in_loop = False
+    for nm in names:
+        lp = FRAMES[nm][1]
+        if lp is True:
+            in_loop = True
+        # a hole in a loop's else clause keeps the enclosing loop status
+    if term in ('break', 'continue'):
+        return in_loop
+    return True
+
+
+def enum_frame_bodies(depth, rng=None, sample=None):
+    import itertools
+    names = sorted(FRAMES)
+    combos = []
+    for d in range(1, depth + 1):
+        for seq in itertools.product(names, repeat=d):
+            for term in ('return', 'raise', 'break', 'continue'):
+                if frame_legal(seq, term):
+                    combos.append((seq, term))
+    if sample is not None and rng is not None and len(combos) > sample:
+        combos = rng.sample(combos, sample)
+    return [frame_body(seq, term) for seq, term in combos], combos
+
+
+def routing_frame_bodies():
+    """Depth-3 compositions in which a break/continue has to be routed: at least one loop frame and one try with a finally."""
+    b, c = enum_frame_bodies(3)
+    out = []
+    for body, (seq, term) in zip(b, c):
+        if len(seq) == 3 and term in ('break', 'continue') and any('fin' in n for n in seq) and \
+                any(FRAMES[n][1] is True or n == 'loop_else_hole' for n in seq):
+            out.append(body)
+    return out
